@@ -354,6 +354,12 @@ func (t *Tree) stmt(ctx string, s *Scope) Node {
 	ns := OpenScope(s)
 	body := t.stmtBody(id.val+" "+arg, ns)
 	n := t.NewNode(id, arg, body, s)
+	if n.Type() == NodeUnknown && !strings.Contains(id.val, ":") {
+		// Only statements defined by an extension, which are always
+		// prefixed, may be unknown to us.
+		s, _ := n.ErrorContext()
+		panic(fmt.Errorf("%s: unknown statement '%s'", s, id.val))
+	}
 
 	//Validate cardinality, ordering, and arguemnt syntax
 	e := n.check()
